@@ -142,7 +142,7 @@ Definition get_failed_discovers (d : dir) : Z := d_fail d.
 (* ---------- vm/vm_discover.py: how the VM iterates over the directory ----------
    Register.operand selects lights / groups / locations; disc_forward the direction;
    the result register receives a name or Operand.NULL.  `x or Operand.NULL` turns
-   None *and the empty string* into NULL.  dnextm calls .next/.prev on whatever
+   None into NULL (on the pinned tree also the empty string, `x or Operand.NULL`: D63).  dnextm calls .next/.prev on whatever
    get_group_lights / get_location_lights returns, which is None once the group
    or location has disappeared: AttributeError ([DFault]). *)
 Inductive operand := OLight | OGroup | OLocation.
@@ -150,7 +150,7 @@ Inductive dresult := DName (s : string) | DNull | DFault.
 
 Definition or_null (o : option string) : dresult :=
   match o with
-  | Some s => if String.eqb s EmptyString then DNull else DName s
+  | Some s => DName s      (* the empty string is a name like any other (D63): only None is NULL *)
   | None => DNull
   end.
 
